@@ -10,6 +10,7 @@ import (
 	"net"
 	"sort"
 	"strings"
+	"sync"
 
 	"github.com/gocql/gocql/verifsim/cqlspec"
 	"github.com/gocql/gocql/verifsim/kernel"
@@ -137,6 +138,9 @@ type Cluster struct {
 	// SystemFateFn, when set, decides the fate of each system reply.
 	SystemFateFn func(sc *SConn, rec *ReqRec) Fate
 
+	// mu guards sconns/bySim: connections are accepted on the driver's dialling
+	// goroutines, everything else runs on the simulator's root goroutine
+	mu     sync.Mutex
 	sconns []*SConn
 	bySim  map[*simnet.Conn]*SConn
 	held   []*Reply
@@ -190,15 +194,25 @@ func (cl *Cluster) HostByAddr(addr string) *Host {
 func (cl *Cluster) accept(c *simnet.Conn) {
 	h := cl.HostByAddr(c.Host)
 	sc := &SConn{C: c, Host: h, Outstanding: map[int]*Reply{}}
+	cl.mu.Lock()
 	cl.sconns = append(cl.sconns, sc)
 	cl.bySim[c] = sc
+	cl.mu.Unlock()
 }
 
 // SConns returns the server-side connections in accept order.
-func (cl *Cluster) SConns() []*SConn { return cl.sconns }
+func (cl *Cluster) SConns() []*SConn {
+	cl.mu.Lock()
+	defer cl.mu.Unlock()
+	return append([]*SConn(nil), cl.sconns...)
+}
 
 // SConnOf maps a simulated connection to its server side.
-func (cl *Cluster) SConnOf(c *simnet.Conn) *SConn { return cl.bySim[c] }
+func (cl *Cluster) SConnOf(c *simnet.Conn) *SConn {
+	cl.mu.Lock()
+	defer cl.mu.Unlock()
+	return cl.bySim[c]
+}
 
 // Held returns the undelivered replies, oldest first.
 func (cl *Cluster) Held() []*Reply { return cl.held }
@@ -219,7 +233,7 @@ func (sc *SConn) decompressor() cqlspec.Decompressor {
 // Process lets every live node consume the complete request frames in its connections'
 // inboxes. It is called at quiescence, in deterministic connection order.
 func (cl *Cluster) Process() {
-	for _, sc := range cl.sconns {
+	for _, sc := range cl.SConns() {
 		if sc.Dead || sc.Host == nil || sc.Host.Stalled {
 			continue
 		}
@@ -486,7 +500,7 @@ func (cl *Cluster) CloseConn(sc *SConn, reset bool) {
 // PushEvent sends an EVENT frame on every live connection registered for its type.
 func (cl *Cluster) PushEvent(ev *cqlspec.Response) int {
 	n := 0
-	for _, sc := range cl.sconns {
+	for _, sc := range cl.SConns() {
 		if sc.Dead || sc.C.ClientClosed() {
 			continue
 		}
@@ -555,7 +569,7 @@ func (cl *Cluster) DeliverAll() {
 
 // CloseAll closes the server side of every connection (end of run).
 func (cl *Cluster) CloseAll() {
-	for _, sc := range cl.sconns {
+	for _, sc := range cl.SConns() {
 		if !sc.C.ServerClosed() {
 			sc.C.ServerClose(false)
 		}
